@@ -79,6 +79,9 @@ class Aead:
 
 
 def slow_kdf(cfg, password, salt):
+    if cfg['name'] == 'blake2b':
+        # the keyed-BLAKE2b KDF is a documented choice for high-entropy pass-phrases (<= 64 bytes)
+        return hashlib.blake2b(b'', salt=salt, digest_size=cfg['length'], key=password).digest()
     if cfg['name'] != 'scrypt':
         raise FormatError('unknown user kdf')
     return hashlib.scrypt(password, salt=salt, n=cfg.get('n', 1 << 20), r=cfg.get('r', 8), p=cfg.get('p', 1),
